@@ -3812,9 +3812,52 @@ class ScoreVariant(object):
 
         for start, end, offset in self.segments:
             delta = offset - start.t
+            # the divisions, signatures and clefs in force at the start of the
+            # segment also hold for its copy, whatever the previous segment of
+            # the variant ended with (e.g. after jumping back to the start of
+            # a repeated section)
+            part.set_quarter_duration(
+                offset, int(self.part.quarter_duration_map(start.t))
+            )
             qd = self.part.quarter_durations(start.t, end.t)
             for t, quarter in qd:
                 part.set_quarter_duration(t + delta, quarter)
+            tp_offset = part.get_or_add_point(offset)
+            for cls, attrs in (
+                (TimeSignature, ("beats", "beat_type")),
+                (KeySignature, ("fifths", "mode")),
+            ):
+                if len(start.starting_objects[cls]) > 0:
+                    continue
+                in_force = next(start.iter_prev(cls), None)
+                current = next(tp_offset.iter_prev(cls), None)
+                if in_force is not None and (
+                    current is None
+                    or any(getattr(in_force, a) != getattr(current, a) for a in attrs)
+                ):
+                    o_copy = copy(in_force)
+                    o_copy.start = None
+                    o_copy.end = None
+                    part.add(o_copy, offset)
+            staff_clefs = {}
+            for clef in self.part.iter_all(Clef, self.part.first_point, start):
+                staff_clefs[clef.staff] = clef
+            for staff, clef in staff_clefs.items():
+                if any(c.staff == staff for c in start.starting_objects[Clef]):
+                    continue
+                current = None
+                for c in part.iter_all(Clef, part.first_point, tp_offset.next):
+                    if c.staff == staff:
+                        current = c
+                if current is None or (clef.sign, clef.line, clef.octave_change) != (
+                    current.sign,
+                    current.line,
+                    current.octave_change,
+                ):
+                    o_copy = copy(clef)
+                    o_copy.start = None
+                    o_copy.end = None
+                    part.add(o_copy, offset)
             # After creating the new part we need to replace references to
             # objects in the old part to references in the new part
             # (e.g. t.next, t.prev, note.tie_next). For this we keep track of
